@@ -253,7 +253,11 @@ export class ProcGenWrapper {
         }
         const elem = this.shadowRoot.createTextNode(textContent)
         elem.destroyBackendElementOnRemoval()
-        if (slotElement) Element.setSlotElement(elem, slotElement)
+        if (slotElement) {
+          Element.setSlotElement(elem, slotElement)
+          // (the update handler skips nodes that are not marked as belonging to this slot)
+          getTmplArgs(elem).dynamicSlotNameMatched = true
+        }
         if (textInit) textInit(elem)
         childNodes.push(elem)
       },
